@@ -213,11 +213,9 @@ func (c *Conn) waitCloseHandshake() error {
 		return c.closeFrameErr
 	}
 
-	for i := int64(0); i < c.msgReader.payloadLength; i++ {
-		_, err := c.br.ReadByte()
-		if err != nil {
-			return err
-		}
+	err = c.discardPayload(ctx, c.msgReader.payloadLength)
+	if err != nil {
+		return err
 	}
 
 	for {
@@ -226,13 +224,30 @@ func (c *Conn) waitCloseHandshake() error {
 			return err
 		}
 
-		for i := int64(0); i < h.payloadLength; i++ {
-			_, err := c.br.ReadByte()
-			if err != nil {
-				return err
-			}
+		err = c.discardPayload(ctx, h.payloadLength)
+		if err != nil {
+			return err
 		}
 	}
+}
+
+// discardPayload reads and drops n bytes of frame payload under ctx, like every
+// other read of the connection, so that a peer that stalls in the middle of a
+// frame cannot block the close handshake past its deadline.
+func (c *Conn) discardPayload(ctx context.Context, n int64) error {
+	buf := make([]byte, 512)
+	for n > 0 {
+		p := buf
+		if int64(len(p)) > n {
+			p = p[:n]
+		}
+		m, err := c.readFramePayload(ctx, p)
+		n -= int64(m)
+		if err != nil {
+			return err
+		}
+	}
+	return nil
 }
 
 func (c *Conn) waitGoroutines() error {
